@@ -557,3 +557,15 @@ func init() {
 	externalWrites["fnfield:H.goat.Server.streamInterceptor"] = externalWrites["fnfield:H.google.golang.org/grpc.StreamDesc.Handler"]
 	externalWrites["fnfield:*"] = append(externalWrites["fnfield:*"], externalWrites["fnfield:H.google.golang.org/grpc.StreamDesc.Handler"]...)
 }
+
+func init() {
+	ext("fnfield:H.goat.Proxy.rpcIntercepter", "RpcIntercepter(hdr): user code; free to rewrite the header's addressing fields (Destination, Source, Method, Headers); touches nothing else", func(c *ExtCtx) Val {
+		for _, a := range externalWrites["fnfield:H.goat.Proxy.rpcIntercepter"] {
+			c.st.havoc(a)
+		}
+		return c.fresh(0, "intercept.err")
+	})
+	externalWrites["fnfield:H.goat.Proxy.rpcIntercepter"] = []string{
+		"H.goatorepo.RequestHeader.Destination", "H.goatorepo.RequestHeader.Source", "H.goatorepo.RequestHeader.Method", "H.goatorepo.RequestHeader.Headers"}
+	externalWrites["fnfield:*"] = append(externalWrites["fnfield:*"], externalWrites["fnfield:H.goat.Proxy.rpcIntercepter"]...)
+}
